@@ -317,14 +317,13 @@ func (w *World) describeInput(fn *ssa.Function, v ssa.Value, root ssa.Value) str
 // plus the field the closure compares with n.NodeType().
 func (w *World) nodeTestFields() map[string]bool {
 	out := map[string]bool{}
-	for _, cl := range w.sharedClosures() {
-		if !w.isPredicateFuncType(cl.Signature) || cl.Parent() == nil {
-			continue
-		}
+	for _, ntp := range w.nodeTestPredicates() {
+		cl := ntp.Fn
 		// factory reads
-		eachInstr(cl.Parent(), false, func(_ *ssa.Function, in ssa.Instruction) {
+		eachInstr(ntp.Factory, false, func(_ *ssa.Function, in ssa.Instruction) {
 			if fa, ok := in.(*ssa.FieldAddr); ok {
-				if _, isStruct := fa.X.Type().Underlying().(*types.Pointer); isStruct {
+				// fields of the step node the factory was given
+				if len(ntp.Factory.Params) > 0 && types.Identical(fa.X.Type(), ntp.Factory.Params[0].Type()) {
 					out[fieldOfAddr(fa).Name()] = true
 				}
 			}
@@ -339,7 +338,9 @@ func (w *World) nodeTestFields() map[string]bool {
 				if c, ok := side[1].(*ssa.Call); ok && c.Call.IsInvoke() && w.isNavType(c.Call.Value.Type()) {
 					if ld, ok := side[0].(*ssa.UnOp); ok {
 						if fa, ok := ld.X.(*ssa.FieldAddr); ok {
-							out[fieldOfAddr(fa).Name()] = true
+							if len(ntp.Factory.Params) == 0 || types.Identical(fa.X.Type(), ntp.Factory.Params[0].Type()) {
+								out[fieldOfAddr(fa).Name()] = true
+							}
 						}
 					}
 				}
@@ -1013,4 +1014,46 @@ func (w *World) xTotalByBuilds(r *Report, fn *ssa.Function, br *builderRoles) {
 	default:
 		r.ok("X-TOTAL", key, pos, fmt.Sprintf("%d outcomes enumerated over every name compared with (and one unknown name): a nil error always comes with a query", total))
 	}
+}
+
+// nodeTestPred: a node-test predicate the builder creates and every clone
+// shares: a closure of predicate type made in build-time code, or a method of
+// predicate type whose bound method value is made there (the predicate written
+// as a small type with a match method).
+type nodeTestPred struct {
+	Fn      *ssa.Function // the closure, or the method
+	Factory *ssa.Function // the build-time function that makes it
+	Method  bool
+}
+
+func (w *World) nodeTestPredicates() []nodeTestPred {
+	var out []nodeTestPred
+	for _, cl := range w.sharedClosures() {
+		if w.isPredicateFuncType(cl.Signature) && cl.Parent() != nil {
+			out = append(out, nodeTestPred{Fn: cl, Factory: cl.Parent()})
+		}
+	}
+	for _, fn := range w.AllFuncs {
+		if w.RunTime[fn] && !w.BuildTime[fn] {
+			continue
+		}
+		eachInstr(fn, false, func(_ *ssa.Function, in ssa.Instruction) {
+			mc, ok := in.(*ssa.MakeClosure)
+			if !ok {
+				return
+			}
+			bf, ok := mc.Fn.(*ssa.Function)
+			if !ok || !strings.HasPrefix(bf.Synthetic, "bound method wrapper") || !w.isPredicateFuncType(bf.Signature) {
+				return
+			}
+			obj, ok := bf.Object().(*types.Func)
+			if !ok {
+				return
+			}
+			if m := w.Prog.FuncValue(obj); m != nil && w.inPkg(m) {
+				out = append(out, nodeTestPred{Fn: m, Factory: fn, Method: true})
+			}
+		})
+	}
+	return out
 }
